@@ -1,4 +1,6 @@
 SPECIFICATION Spec
-CONSTANT SepInRmdir = FALSE
+CONSTANTS
+  SepInRmdir = FALSE
+  RmdirOnlyForFile = FALSE
 INVARIANTS N1 N2 N4 N6
 CHECK_DEADLOCK FALSE
